@@ -22,7 +22,7 @@ CHECKS.update({
                    "deterministic simulation + independent re-validation of everything handed to the simulated store", ref="§7 C02"),
     "C03": session("Same simulated runs with planted twins (same bytes under different feed partitions, neighbours, sessions, dedup states, salts): pointer (hash,size) must equal the reference hash of the reference chunking and agree between twins.",
                    "deterministic simulation with twin contents across schedules, sessions and salts; reference file hash oracle", ref="§7 C03"),
-    "C11": session("Multi-session histories on one store and shard cache: later sessions re-upload, extend and recombine content of earlier finalized sessions; oracle on the store call log and the captured shards (every stored xorb listed in the session's shards; no chunk stored by an earlier finalized session is uploaded again; unchanged re-upload has new_bytes = 0); the cache's chunk-index cap is sampled down to 64..2000 with a sound exemption once the cap may legitimately be reached.",
+    "C11": session("Multi-session histories on one store and shard cache: later sessions re-upload, extend and recombine content of earlier finalized sessions; oracle on the store call log and the captured shards (every stored xorb listed in the session's shards; no chunk stored by an earlier finalized session is uploaded again; unchanged re-upload has new_bytes = 0); the cache's chunk-index cap is sampled down to 64..2000 with a sound exemption once the cap may legitimately be reached. One session in four runs as another process sharing the shard-cache directory (its shards appear there without in-process registration). One run in five drives one ShardFileManager from 2-4 concurrent callers under the cooperative thread scheduler (switching inside the shard write-out, between operations and on held locks): every record whose add returned Ok must be in a shard after the final flush.",
                    "deterministic simulation of session histories; conservation oracle over the simulated store's call log", ref="§7 C11"),
     "C14": session("Same simulated runs biased to fragmentation-heavy dedup patterns under small estimator windows and to out-of-order upload completion; conservation laws on per-file and session metrics against the bytes fed and the values the simulated store actually returned.",
                    "deterministic simulation with seeded completion order of background uploads; conservation oracle on metrics vs. store call log", ref="§7 C14"),
@@ -81,8 +81,8 @@ CHECKS["C17"] = ("recon", "exploration",
     "Trusted: tokio, the harness's plan generator (it plays the server). reqwest / the retry middleware are not run. Each fetch info has its own URL.", "§7 C17")
 
 CHECKS["C19"] = ("crash", "fault_enumeration",
-    "crash-point enumeration: directory snapshots at every named point between file-system effects (process-crash model) re-opened by fresh instances, plus a protocol check over the kernel's inotify event sequence",
-    "For seeded histories, the operation under test (shard flush, consolidation, keyed export, LocalClient::put, DiskCache::put with eviction) runs once while every crash point (H4/H7) copies the directories; every snapshot and variants with leftover temp files cut to a prefix are re-opened: final-named files complete and consistent with their names (content hash / length+CRC / validator), records retrievable before the operation still retrievable (losses the completed operation itself causes, i.e. evictions, excepted), re-open neither fails nor panics nor serves temp files. Independently of where the points sit, the inotify event sequence must show final names appearing only by rename and never written afterwards. Complete over crash points per history; histories sampled.",
+    "crash-point enumeration: directory snapshots at every named point between file-system effects (process-crash model) and one derived state per create/delete/rename of the kernel's inotify effect log, re-opened by fresh instances, plus a protocol check over that event sequence",
+    "For seeded histories, the operation under test (shard flush, consolidation, keyed export, LocalClient::put, DiskCache::put with eviction) runs once while every crash point (H4/H7) copies the directories; every snapshot and variants with leftover temp files cut to a prefix are re-opened: final-named files complete and consistent with their names (content hash / length+CRC / validator), records retrievable before the operation still retrievable (losses the completed operation itself causes, i.e. evictions, excepted), re-open neither fails nor panics nor serves temp files. Independently of where the points sit, the inotify event sequence must show final names appearing only by rename and never written afterwards, and one more crash state per namespace-changing event of that sequence is derived from the copy taken at the start and re-opened like the others (states between effects that no named point separates). A range the chunk cache served before a put and serves after its completion must be served at every stop point in between. Complete over crash points per history; histories sampled.",
     "Trusted: tmpfs semantics, inotify. Crash states are taken between library-level file-system effects, not at individual write(2) calls (no syscall interposition available); temp-file prefix variants cover the states in between.", "§7 C19")
 
 NOT_APPLICABLE = {
